@@ -235,6 +235,10 @@ func SchedBound(n int) {}
 // PreemptSync makes every synchronisation operation (lock, channel op, select) a voluntary switch point.
 func PreemptSync() {}
 
+// NoTimers: time.AfterFunc timers never fire in this scenario (idle time-outs of seconds are far away compared with
+// the operations explored); without it a timer may fire at any scheduling point.
+func NoTimers() {}
+
 // AllowMainBlock: a blocked calling goroutine with nothing else runnable just ends the path (no deadlock report).
 func AllowMainBlock() {}
 
